@@ -141,7 +141,7 @@ func runC13(p *core.Program, r *core.Report) {
 	r.Borrow("R13.7", func() { runC07(p, r) })
 	// "a recipe comfortably above ~0.1 is never refused" is a statement about the shipped thresholds:
 	// MaxTrials = 200 and MaxFailRate = 1e-9, assigned nowhere else (= C16 R16.4 re-run)
-	borrowSelected(p, r, runC16, "R13.8", func(o core.Obligation) bool { return o.Rule == "R16.4" })
+	borrowSelected(p, r, runC16, "R13.8", func(o core.Obligation) bool { return o.Rule == "R16.4" || o.Rule == "R16.6" && mentionsVar(o.Construct, "MaxTrials", "MaxFailRate") })
 }
 
 // checkSuccessProbability: R13.7 (shape of SuccessProbability) and R13.8 (the pre-flight test).
